@@ -100,6 +100,12 @@ func (g *gen) body(b *builder, ind, fn, depth int, deferred bool) {
 	for i := 0; i < n && g.budget > 0; i++ {
 		g.budget--
 		g.p.Stmts++
+		if deferred && s.Chance(1, 5) {
+			// recover() after other statements of the deferred function (for
+			// instance after one of its own defer statements)
+			b.emit(ind, "h.Rec(%d, recover())", b.id())
+			continue
+		}
 		switch s.Pick(6, 2, 2, 4, 3, 3, 1, 2, 2, 1, 1, 2, 2) {
 		case 12:
 			if g.o.GoNative && !g.inSub && g.feature("go-native", 1, 2) {
@@ -138,6 +144,11 @@ func (g *gen) body(b *builder, ind, fn, depth int, deferred bool) {
 				g.body(b, ind+1, fn, depth+1, true)
 				g.inDef--
 				b.emit(ind, "}()")
+				if deferred && s.Bool() {
+					// recover() called while one of the deferred function's
+					// own deferred calls is pending
+					b.emit(ind, "h.Rec(%d, recover())", b.id())
+				}
 			}
 		case 4:
 			if g.feature("panic-stmt", 3, 4) && (g.inDef == 0 || g.feature("panic-in-deferred", 1, 2)) {
